@@ -8,6 +8,7 @@ bak = dst + ".bak"
 shutil.copy(dst, bak); shutil.copy(src, dst)
 os.makedirs("/verif/audits", exist_ok=True)
 if os.path.exists(f"/tmp/sb-{n}/out/AUDIT.md"): shutil.copy(f"/tmp/sb-{n}/out/AUDIT.md", f"/verif/audits/{pid}.md")
+if os.path.exists(f"/tmp/sb-{n}/out/AUDIT2.md"): shutil.copy(f"/tmp/sb-{n}/out/AUDIT2.md", f"/verif/audits/{pid}-2.md")
 def sh(c, cwd="/verif"): 
     r = subprocess.run(c, shell=True, cwd=cwd, stdout=subprocess.PIPE, stderr=subprocess.STDOUT, text=True); return r.returncode, r.stdout
 assert sh("git diff --quiet", "/repo")[0] == 0, "/repo dirty"
